@@ -294,9 +294,28 @@ func ruleExecuteReadonly(c *Ctx, r *Report, rule string) {
 			set[f] = true
 		}
 	}
+	// the exported wrapper: what Execute does around execute must leave the Prog alone as well
+	outer := map[*ssa.Function]bool{}
+	if eobj, _ := c.find("Execute"); eobj != nil {
+		if eroot := c.ssaFunc(eobj); eroot != nil {
+			for _, f := range closureOf(eroot) {
+				if !set[f] {
+					outer[f] = true
+				}
+			}
+		}
+	}
 	n := 0
 	for _, a := range c.fieldAccesses() {
-		if !set[a.Fn] || a.Kind == "read" {
+		if a.Kind == "read" {
+			continue
+		}
+		if outer[a.Fn] && (a.Struct == "Prog" || (a.Struct == "lineCalc" && a.Field != "mu")) {
+			n++
+			r.bad(rule, fmt.Sprintf("%s/%s.%s", ssaFuncName(a.Fn), a.Struct, a.Field), fmt.Sprintf("%s, part of Execute, writes %s.%s (%s): executing a Prog must not alter it", ssaFuncName(a.Fn), a.Struct, a.Field, a.Kind), c.pos(a.Pos))
+			continue
+		}
+		if !set[a.Fn] {
 			continue
 		}
 		switch a.Struct {
@@ -342,7 +361,7 @@ func ruleAmbientInputs(c *Ctx, r *Report, rule string) {
 					why = "process environment"
 				case strings.HasPrefix(name, "runtime.NumCPU") || strings.HasPrefix(name, "runtime.GOMAXPROCS") || strings.HasPrefix(name, "runtime.NumGoroutine"):
 					why = "scheduler parameters"
-				case strings.HasPrefix(pkg, "sort") && name != "sort.Strings" && name != "sort.Ints" && name != "sort.SearchInts" && name != "sort.SearchStrings":
+				case pkg == "sort" && name != "sort.Strings" && name != "sort.Ints" && name != "sort.SearchInts" && name != "sort.SearchStrings":
 					why = "a sort whose comparator may leave ties in map order (only sort.Strings/sort.Ints are accepted)"
 				case strings.HasPrefix(name, "slices.SortFunc") || strings.HasPrefix(name, "slices.SortStableFunc"):
 					why = "a sort whose comparator may leave ties in map order"
@@ -362,4 +381,196 @@ func ruleAmbientInputs(c *Ctx, r *Report, rule string) {
 	}
 	r.check(selects == 1, rule, "select-count", "one select statement (the reader's guarded send)", fmt.Sprintf("%d select statements in the library; the only accepted one is the reader's chunk-send/done select", selects), "")
 	_ = types.Universe
+}
+
+// ruleParserDrains: parse() returns only after the end-of-input test
+// succeeded, i.e. after the parser consumed the lexer's finaliser token (the
+// lexer goroutine ends right after emitting it). An earlier exit leaves the
+// lexer blocked on its token channel and the reader on its input channel.
+func ruleParserDrains(c *Ctx, r *Report, rule string) {
+	r.rule(rule, 2, "every way out of parse()'s toplevel loop — the loop condition turning false, a break, a return — is taken only when matchEnd() has just returned true (the finaliser token tEOF/tFAIL was consumed); no return precedes the loop; matchEnd is checkEnd (current.typ <= tEOF) followed by advance")
+	_, fd := c.find("parse")
+	if fd == nil {
+		r.bad(rule, "parse", "function not found", "")
+		return
+	}
+	isMatchEnd := func(a condAtom) bool {
+		call, ok := a.E.(*ast.CallExpr)
+		return ok && c.calleeName(call) == "parser.matchEnd"
+	}
+	var loop *ast.ForStmt
+	loopAt := -1
+	for i, s := range fd.Body.List {
+		if fs, ok := s.(*ast.ForStmt); ok {
+			mentions := false
+			ast.Inspect(fs, func(n ast.Node) bool {
+				if call, ok := n.(*ast.CallExpr); ok && c.calleeName(call) == "parser.matchEnd" {
+					mentions = true
+				}
+				return true
+			})
+			if mentions && loop == nil {
+				loop, loopAt = fs, i
+			}
+		}
+	}
+	if loop == nil {
+		r.bad(rule, "parse/loop", "parse has no toplevel loop that tests matchEnd()", c.pos(fd.Pos()))
+		return
+	}
+	// no return before the loop
+	early := ""
+	for _, s := range fd.Body.List[:loopAt] {
+		ast.Inspect(s, func(n ast.Node) bool {
+			if _, isLit := n.(*ast.FuncLit); isLit {
+				return false
+			}
+			if rs, ok := n.(*ast.ReturnStmt); ok {
+				early = c.pos(rs.Pos())
+			}
+			return true
+		})
+	}
+	r.check(early == "", rule, "parse/no-early-return", "no return before the token loop", "parse returns before the token loop at "+early+": the lexer goroutine is left running", early)
+	// the loop condition
+	if loop.Cond != nil {
+		known := c.nnf(loop.Cond, false, nil).knownAtoms()
+		ok := false
+		for _, a := range known {
+			if isMatchEnd(a) && a.Pos {
+				ok = true
+			}
+		}
+		r.check(ok, rule, "parse/loop-exit", "the loop ends only when matchEnd() is true", fmt.Sprintf("the toplevel loop can end on %s without matchEnd() being true: tokens are left unconsumed and the lexer goroutine blocks forever", types.ExprString(loop.Cond)), c.pos(loop.Pos()))
+	}
+	// other exits inside the loop
+	pm := parentMap(fd.Body)
+	n := 0
+	ast.Inspect(loop.Body, func(x ast.Node) bool {
+		if _, isLit := x.(*ast.FuncLit); isLit {
+			return false
+		}
+		leaves := false
+		what := ""
+		switch s := x.(type) {
+		case *ast.ReturnStmt:
+			leaves, what = true, "return"
+		case *ast.BranchStmt:
+			switch s.Tok {
+			case token.GOTO:
+				leaves, what = true, "goto"
+			case token.BREAK:
+				// a break leaves this loop unless it belongs to an inner for/switch/select
+				target := ast.Node(nil)
+				for p := pm[ast.Node(s)]; p != nil; p = pm[p] {
+					switch p.(type) {
+					case *ast.ForStmt, *ast.RangeStmt, *ast.SwitchStmt, *ast.TypeSwitchStmt, *ast.SelectStmt:
+						if target == nil {
+							target = p
+						}
+					}
+				}
+				if s.Label != nil || target == ast.Node(loop) {
+					leaves, what = true, "break"
+				}
+			}
+		}
+		if !leaves {
+			return true
+		}
+		n++
+		ok := false
+		for _, f := range splitFacts(c.factsAt(fd.Body, x)) {
+			if isMatchEnd(condAtom{E: stripParens(f.Cond), Pos: f.Pos}) && f.Pos {
+				ok = true
+			}
+		}
+		r.check(ok, rule, fmt.Sprintf("parse/loop-%s#%d", what, n), "taken only after matchEnd() returned true", fmt.Sprintf("parse leaves its token loop by %s without matchEnd() having returned true: the rest of the tokens is never consumed, so the lexer goroutine (and with it the reader) stays blocked after the call returned", what), c.pos(x.Pos()))
+		return true
+	})
+	// matchEnd itself: checkEnd then advance
+	if _, me := c.find("parser.matchEnd"); me != nil {
+		calls := []string{}
+		for _, cs := range c.callsOf(me) {
+			calls = append(calls, cs.Name)
+		}
+		adv := false
+		for _, cn := range calls {
+			if cn == "parser.advance" {
+				adv = true
+			}
+		}
+		r.check(adv, rule, "matchEnd", "consumes the finaliser token with advance()", fmt.Sprintf("matchEnd calls %v: it must consume the end token with advance()", calls), c.pos(me.Pos()))
+	} else {
+		r.bad(rule, "matchEnd", "function not found", "")
+	}
+}
+
+// ruleWriterPassThrough: the library hands the caller's writers on as they
+// are. A wrapper constructed by the library (bufio.Writer and the like) has
+// state of its own; stored in a Prog it is shared, unsynchronised, by every
+// execution of that Prog, whatever the caller's writer guarantees.
+func ruleWriterPassThrough(c *Ctx, r *Report, rule string) {
+	r.rule(rule, 6, "every value stored in an io.Writer field of a library struct (config, writers, Prog, vm, logger) is an existing writer passed on unchanged — a parameter, another such field, os.Stdout/os.Stderr — never the result of a call that wraps it (a buffered or otherwise stateful writer created by the library would be shared by concurrent executions of one Prog)")
+	isWriter := func(t types.Type) bool { return t != nil && types.TypeString(t, nil) == "io.Writer" }
+	n := 0
+	judge := func(where string, field string, v ast.Expr, pos token.Pos) {
+		n++
+		key := fmt.Sprintf("%s/%s#%d", where, field, n)
+		v = stripParens(v)
+		switch x := v.(type) {
+		case *ast.Ident, *ast.SelectorExpr:
+			r.ok(rule, key, "passes on "+types.ExprString(v))
+			_ = x
+		default:
+			r.bad(rule, key, fmt.Sprintf("%s stores %s in the writer field %s: the library must pass the caller's writer on unchanged, not wrap it in a writer with state of its own", where, types.ExprString(v), field), c.pos(pos))
+		}
+	}
+	for _, it := range c.sortedDecls() {
+		obj, fd := it.obj, it.fd
+		if obj.Pkg() == nil || obj.Pkg().Path() != bclPath || fd.Body == nil {
+			continue
+		}
+		where := qname(obj)
+		n = 0
+		ast.Inspect(fd.Body, func(x ast.Node) bool {
+			switch e := x.(type) {
+			case *ast.CompositeLit:
+				_, st := structOf(c.typeOf(e))
+				if st == nil {
+					return true
+				}
+				for i, el := range e.Elts {
+					var fld *types.Var
+					val := el
+					if kv, ok := el.(*ast.KeyValueExpr); ok {
+						if id, ok := kv.Key.(*ast.Ident); ok {
+							for j := 0; j < st.NumFields(); j++ {
+								if st.Field(j).Name() == id.Name {
+									fld = st.Field(j)
+								}
+							}
+						}
+						val = kv.Value
+					} else if i < st.NumFields() {
+						fld = st.Field(i)
+					}
+					if fld != nil && isWriter(fld.Type()) {
+						judge(where, typeShort(c.typeOf(e))+"."+fld.Name(), val, el.Pos())
+					}
+				}
+			case *ast.AssignStmt:
+				for i, l := range e.Lhs {
+					sel, ok := stripParens(l).(*ast.SelectorExpr)
+					if !ok || i >= len(e.Rhs) || len(e.Lhs) != len(e.Rhs) {
+						continue
+					}
+					if s, ok := c.infoFor(sel).Selections[sel]; ok && s.Kind() == types.FieldVal && isWriter(s.Obj().Type()) {
+						judge(where, typeShort(s.Recv())+"."+sel.Sel.Name, e.Rhs[i], e.Pos())
+					}
+				}
+			}
+			return true
+		})
+	}
 }
